@@ -23,6 +23,7 @@ import (
 	"github.com/xelaj/mtproto/telegram"
 	"github.com/xelaj/mtproto/telegram/verifh/hx"
 	"github.com/xelaj/mtproto/telegram/verifh/ref"
+	"github.com/xelaj/mtproto/telegram/verifh/refsrv"
 	"github.com/xelaj/mtproto/telegram/verifh/scen"
 	"pgregory.net/rapid"
 	"verif/evid"
@@ -279,15 +280,23 @@ func oracle(c *Case) error {
 					return fmt.Errorf("%s is reproducible: two key exchanges after seeding the process-global math/rand with %d sent the same value %s…", name, c.Seed, hex.EncodeToString(obs[0][k][:8]))
 				}
 			}
-		case "retry-exponents":
+		case "retry-exponents", "second-exchange":
 			// the server asks for another exponent (dh_gen_retry, as the protocol allows) once or twice: a client that
 			// obeys draws a fresh b from the OS source each time; one that gives up sends nothing more
 			res, err := scen.RunChild(c.Scenario, 120*time.Second)
 			if err != nil || res.Died || len(res.HS) == 0 || len(res.HS[0].GBs) == 0 {
 				return fmt.Errorf("INFRA: the exchange did not get as far as set_client_DH_params: %v %v", err, res)
 			}
-			gbs := res.HS[0].GBs
-			run.Class(fmt.Sprintf("retry-exponents:g_b-values-sent=%d", min(len(gbs), 3)), 1)
+			// second-exchange: the first exchange is refused at its last step (dh_gen_fail), the application connects again
+			// on the same client object: every g_b of the process is looked at
+			var gbs [][]byte
+			for _, h := range res.HS {
+				gbs = append(gbs, h.GBs...)
+			}
+			run.Class(fmt.Sprintf("%s:g_b-values-sent=%d", c.Kind, min(len(gbs), 3)), 1)
+			if c.Kind == "second-exchange" && len(gbs) < 2 {
+				return fmt.Errorf("INFRA: the second exchange did not get as far as set_client_DH_params (%d g_b values seen; notes %v)", len(gbs), res.Notes)
+			}
 			g := big.NewInt(int64(c.Scenario.HS.G))
 			for i := 0; i < len(gbs); i++ {
 				for j := i + 1; j < len(gbs); j++ {
@@ -301,7 +310,7 @@ func oracle(c *Case) error {
 					nw := big.NewInt(1)
 					for k := 0; k <= 4096; k++ {
 						if ratio.Cmp(pw) == 0 || ratio.Cmp(nw) == 0 {
-							return fmt.Errorf("DH exponent after dh_gen_retry is derived from the previous one: g_b #%d = g_b #%d * g^(+-%d) - it was not read from the OS source", j+1, i+1, k)
+							return fmt.Errorf("a DH exponent of this process is derived from an earlier one (%s): g_b #%d = g_b #%d * g^(+-%d) - it was not read from the OS source", c.Kind, j+1, i+1, k)
 						}
 						pw.Mod(pw.Mul(pw, g), ref.DHPrime)
 						nw.Mod(nw.Mul(nw, ginv), ref.DHPrime)
@@ -416,12 +425,12 @@ func TestC19(t *testing.T) {
 	t.Run("each-kind-once", func(t *testing.T) {
 		// one case of every kind that the generated phase only samples, so that no run misses one
 		nsh := hx.NShards()
-		for i, kind := range []string{"reseed-nonces", "clock-nonce", "clock-exponent", "reseed-srp", "reseed-exchange", "retry-exponents"} {
+		for i, kind := range []string{"reseed-nonces", "clock-nonce", "clock-exponent", "reseed-srp", "reseed-exchange", "retry-exponents", "second-exchange"} {
 			if i%nsh != run.Shard%nsh {
 				continue
 			}
 			c := &Case{Kind: kind, Seed: int64(run.Seed)*31 + int64(i), G: []int32{3, 4, 7}[i%3], Password: "each kind once"}
-			if kind == "reseed-exchange" || kind == "retry-exponents" {
+			if kind == "reseed-exchange" || kind == "retry-exponents" || kind == "second-exchange" {
 				sc, err := scen.BuildHandshake(&detSource{seed: run.Seed*53 + uint64(i)}, keys, scen.Corner{}, false)
 				if err != nil {
 					t.Fatalf("INFRA: %v", err)
@@ -433,6 +442,11 @@ func TestC19(t *testing.T) {
 				if kind == "retry-exponents" {
 					sc.ReseedGlobal = nil
 					sc.HS.RetryFirst = 2
+				}
+				if kind == "second-exchange" {
+					sc.ReseedGlobal = nil
+					sc.Fault = &refsrv.Fault{Step: "dhGen", Field: "kind", Kind: "gen_fail"}
+					sc.Aftermath = "app-reconnect"
 				}
 				c.Scenario = sc
 			}
@@ -568,7 +582,7 @@ func TestC19(t *testing.T) {
 	t.Run("generated", func(t *testing.T) {
 		rapid.Check(t, func(t *rapid.T) {
 			c := &Case{Seed: rapid.OneOf(rapid.SampledFrom([]int64{0, 1, 42, -1, 1 << 40}), rapid.Int64()).Draw(t, "seed"), G: rapid.SampledFrom([]int32{3, 4, 7}).Draw(t, "g")}
-			c.Kind = rapid.SampledFrom([]string{"reseed-nonces", "reseed-nonces", "clock-nonce", "clock-exponent", "clock-exponent", "reseed-srp", "reseed-exchange", "reseed-exponent-params", "reseed-exponent-params", "srp-distinct", "stalled-os-source", "retry-exponents"}).Draw(t, "kind")
+			c.Kind = rapid.SampledFrom([]string{"reseed-nonces", "reseed-nonces", "clock-nonce", "clock-exponent", "clock-exponent", "reseed-srp", "reseed-exchange", "reseed-exponent-params", "reseed-exponent-params", "srp-distinct", "stalled-os-source", "retry-exponents", "second-exchange"}).Draw(t, "kind")
 			switch c.Kind {
 			case "stalled-os-source":
 				c.StallMs = rapid.SampledFrom([]int{1, 50, 300, 1100}).Draw(t, "stall")
@@ -613,6 +627,16 @@ func TestC19(t *testing.T) {
 				sc.HS.P, sc.HS.Q = 1000003, 1000033
 				sc.Probe = false
 				sc.HS.RetryFirst = rapid.IntRange(1, 3).Draw(t, "retries")
+				c.Scenario = sc
+			case "second-exchange":
+				sc, err := scen.BuildHandshake(rapidSource{t}, keys, scen.Corner{}, false)
+				if err != nil {
+					t.Fatalf("INFRA: %v", err)
+				}
+				sc.HS.P, sc.HS.Q = 1000003, 1000033
+				sc.Probe = false
+				sc.Fault = &refsrv.Fault{Step: "dhGen", Field: "kind", Kind: rapid.SampledFrom([]string{"gen_fail", "gen_retry"}).Draw(t, "refusal")}
+				sc.Aftermath = "app-reconnect"
 				c.Scenario = sc
 			}
 			run.Case(true, evid.Hash(c.Kind, c.Seed, c.G, c.Password, c.Prime, c.GA, c.SecureRandomLen, c.StallMs), "kind:"+c.Kind)
